@@ -22,7 +22,7 @@ RULE = (
     "shape outside the offending subtrees."
 )
 BUDGET = {"quick": 12000, "thorough": 400000}
-TIME_CAP = {"quick": 90, "thorough": 1700}
+TIME_CAP = {"quick": 240, "thorough": 1700}
 ANCHORS = ["SVG.parse", "SVG._use_structure_parse", "Matrix.parse", "Color.parse", "Length.__init__", "Viewbox.set_viewbox", "Use.property_by_values",
            "Group.property_by_values", "Transformable.property_by_values", "GraphicObject.property_by_values", "_Polyshape.property_by_values", "Path.parse"]
 REQUIRED_MONITORS = ["no-exception", "siblings-unaffected", "no-foreign-shapes", "returns-tree", "steps"]
